@@ -1,6 +1,8 @@
 // ---- parsing / hash-mapping specs (C03, C10) ----
 // decoded JSON of one presented disclosure string: base64url-decode then JSON-parse (A-JSON); None if either fails
-pub uninterp spec fn disc_json(d: Seq<char>) -> Option<J>;
+pub uninterp spec fn b64dec(s: Seq<char>) -> Option<Seq<u8>>;       // base64url, no padding accepted
+pub uninterp spec fn json_parse(b: Seq<u8>) -> Option<J>;            // serde_json text -> abstract JSON
+spec fn disc_json(d: Seq<char>) -> Option<J> { match b64dec(d) { Some(b) => json_parse(b), None => None } }
 // digest of a presented disclosure: computed over the presented base64url text itself
 spec fn disc_digest(d: Seq<char>) -> Seq<char> { H(utf8(d)) }
 // the digest -> decoded-disclosure map of a list of presented strings (None: some string is not a disclosure, or a digest repeats)
@@ -19,3 +21,23 @@ spec fn rawmap_of(ds: Seq<Seq<char>>) -> vstd::map::Map<Seq<char>, Seq<char>> de
     if ds.len() == 0 { vstd::map::Map::empty() } else { rawmap_of(ds.drop_last()).insert(disc_digest(ds.last()), ds.last()) }
 }
 spec fn hd_view(h: vstd::map::Map<Seq<char>, String>) -> vstd::map::Map<Seq<char>, Seq<char>> { h.map_values(|v: String| v@) }
+impl serde_json::FromBytes for Value {
+    open spec fn parses(b: Seq<u8>) -> bool { json_parse(b) is Some }
+    open spec fn parsed_as(b: Seq<u8>, x: Self) -> bool { json_parse(b) == Some(jv(x)) }
+}
+proof fn lemma_dmap_step(ds: Seq<Seq<char>>, i: int)
+    requires 0 <= i < ds.len()
+    ensures ds.take(i + 1).drop_last() == ds.take(i), ds.take(i + 1).last() == ds[i],
+{ assert(ds.take(i + 1).drop_last() =~= ds.take(i)); }
+proof fn lemma_rawmap_dom(ds: Seq<Seq<char>>)
+    requires dmap_of(ds) is Some
+    ensures rawmap_of(ds).dom() == dmap_of(ds)->Some_0.dom()
+    decreases ds.len()
+{
+    if ds.len() > 0 {
+        lemma_rawmap_dom(ds.drop_last());
+        assert(rawmap_of(ds).dom() =~= dmap_of(ds)->Some_0.dom());
+    } else {
+        assert(rawmap_of(ds).dom() =~= dmap_of(ds)->Some_0.dom());
+    }
+}
